@@ -398,6 +398,8 @@ var handlerRegistry = typeRegistry{
 			returnsTerminalError,
 			notLast,
 			markedMemoized,
+			mappableInputs,
+			possibleMapKey,
 			unstaticOkay,
 			notMarkedSingleton,
 			isNotFuncPointer,
@@ -406,6 +408,7 @@ var handlerRegistry = typeRegistry{
 			a.fm.group = runGroup
 			a.fm.class = fallibleInjectorFunc
 			a.fm.memoized = true
+			_, a.fm.mapKeyCheck = canBeMapKey(typesIn(a.t))
 			a.fm.flows[inputParams] = toTypeCodes(typesIn(a.t))
 			a.fm.flows[outputParams] = toTypeCodes(redactTerminalError(typesOut(a.t)))
 			a.fm.flows[returnParams] = toTypeCodes([]reflect.Type{errorType})
@@ -462,6 +465,8 @@ var handlerRegistry = typeRegistry{
 			noAnonymousFuncs,
 			notLast,
 			markedMemoized,
+			mappableInputs,
+			possibleMapKey,
 			unstaticOkay,
 			notMarkedSingleton,
 			isNotFuncPointer,
@@ -470,6 +475,7 @@ var handlerRegistry = typeRegistry{
 			a.fm.group = runGroup
 			a.fm.class = injectorFunc
 			a.fm.memoized = true
+			_, a.fm.mapKeyCheck = canBeMapKey(typesIn(a.t))
 			a.fm.flows[inputParams] = toTypeCodes(typesIn(a.t))
 			a.fm.flows[outputParams] = toTypeCodes(typesOut(a.t))
 		},
